@@ -192,34 +192,48 @@ class H:
             out[k] = sym.model_value(m, t)
         return out
 
-    def _candidate(self, label, cond_neg_term, detail):
-        """cond_neg_term is satisfiable on this path: replay models until one reproduces.
-        Models are steered into random sub-boxes of the declared input ranges first (a solver's own
-        choice tends to sit on range corners where e.g. a cdf saturates and hides the difference)."""
+    def _candidate(self, label, cond_neg_term, detail, use_abstract=False, final=True, max_models=None):
+        """cond_neg_term is (possibly) satisfiable on this path: replay models until one reproduces.
+        Models are steered into random sub-boxes of the declared input ranges first (a solver's own choice tends
+        to sit on range corners where e.g. a cdf saturates and hides the difference).
+        use_abstract: take models from the linear abstraction (fast; may be spurious - the concrete replay on the
+        real code is the judge either way)."""
         E = self.E
+        S = E.asolver if use_abstract else E.solver
+        conv = sym.abstract if use_abstract else (lambda t: t)
+        nmax = max_models or MAX_MODELS
+
+        def chk():
+            t0 = time.time()
+            r = str(S.check())
+            E.stats["solver_s"] += time.time() - t0
+            k = ("abs_" if use_abstract else "") + r
+            E.stats["queries"][k] = E.stats["queries"].get(k, 0) + 1
+            return r
+
         tried = []
         rng = random.Random(len(self.decl) * 1000003 + sum(map(ord, label)))
-        E.solver.push()
+        S.push()
         try:
-            E.solver.add(cond_neg_term)
-            for k in range(MAX_MODELS):
+            S.add(conv(cond_neg_term))
+            for k in range(nmax):
                 m = None
-                if k < MAX_MODELS - 2:
-                    E.solver.push()
+                if k < nmax - 2 or use_abstract:
+                    S.push()
                     for name, t in self.decl.items():
                         rg = self.ranges.get(name)
                         if rg and rg[0] is not None and rg[1] is not None and self.kinds[name] == "real":
                             w = (rg[1] - rg[0]) * 0.3
                             a = rng.uniform(rg[0], rg[1] - w)
-                            E.solver.add(t >= sym.rterm(a), t <= sym.rterm(a + w))
-                    if E._check() == "sat":
-                        m = E.solver.model()
-                    E.solver.pop()
+                            S.add(t >= sym.rterm(a), t <= sym.rterm(a + w))
+                    if chk() == "sat":
+                        m = S.model()
+                    S.pop()
                 if m is None:
-                    r = E._check()
+                    r = chk()
                     if r != "sat":
                         break
-                    m = E.solver.model()
+                    m = S.model()
                 inputs = self._model_inputs(m)
                 ok, why = self.replayer(inputs)
                 tried.append({"inputs": inputs, "replay": why})
@@ -238,9 +252,18 @@ class H:
                         lits.append(t != z3.BoolVal(bool(v)))
                 if not lits:
                     break
-                E.solver.add(z3.Or(*lits))
+                S.add(z3.Or(*lits))
         finally:
-            E.solver.pop()
+            S.pop()
+        if not final:
+            return
+        if not tried:
+            # the solver could not produce a model in time (nonlinear feasibility): fall back to seeded admissible
+            # concrete inputs of the same harness - they are a legitimate replay if they fail on the real code
+            ok, why = self.replayer(None)
+            tried.append({"inputs": "seeded admissible inputs", "replay": why})
+            if not ok:
+                raise ViolationFound(label, why.get("inputs"), f"{detail}; concrete replay: {why}")
         raise Unconfirmed(label, f"{detail}; solver models did not reproduce on the real code: {tried[:2]}")
 
     def check(self, cond, label, detail=""):
@@ -252,14 +275,25 @@ class H:
                 neg = z3.BoolVal(True)
             else:
                 c = sym.bterm(cond) if not z3.is_expr(cond) else cond
-                r = self.E.prove(c)
+                c = z3.simplify(c)
+                E = self.E
+                if z3.is_true(c):
+                    E.stats["queries"]["unsat_by_simplifier"] = E.stats["queries"].get("unsat_by_simplifier", 0) + 1
+                    self.results.append((label, "proved"))
+                    return
+                neg = z3.Not(c)
+                if E._acheck(neg) == "unsat":
+                    self.results.append((label, "proved"))
+                    return
+                # cheap counterexample candidates from the linear abstraction, judged by concrete replay
+                self._candidate(label, neg, detail, use_abstract=True, final=False, max_models=3)
+                r = E._check(neg)
                 if r == "unsat":
                     self.results.append((label, "proved"))
                     return
                 if r == "unknown":
                     self.results.append((label, "unknown"))
                     return
-                neg = z3.Not(c)
             self._candidate(label, neg, detail)
         else:
             v = npx.deep_strip(cond)
@@ -270,7 +304,7 @@ class H:
     def fail(self, label, detail=""):
         self.check(False, label, detail)
 
-    def close(self, actual, expected, label, rtol=CONC_RTOL, atol=1e-12):
+    def close(self, actual, expected, label, rtol=CONC_RTOL, atol=1e-12, approx=False):
         """actual == expected (exactly in Real mode; else not robustly different)"""
         A, B = _flat(actual), _flat(expected)
         if len(A) != len(B):
@@ -302,14 +336,30 @@ class H:
             ab = z3.If(b.t >= 0, b.t, -b.t)
             m = sym.rterm(SYM_RTOL) * (1 + ab)
             robust.append(z3.Or(na != nb, z3.And(z3.Not(na), z3.Or(d > m, d < -m))))
-        r = self.E.prove(z3.And(*eqs))
-        if r == "unsat":
+        E = self.E
+        eq = z3.simplify(z3.And(*eqs))
+        if z3.is_true(eq):
+            E.stats["queries"]["unsat_by_simplifier"] = E.stats["queries"].get("unsat_by_simplifier", 0) + 1
             self.results.append((label, "proved"))
             return
         rob = z3.Or(*robust)
-        r2 = self.E.feasible(rob)
+        # 1. linear abstraction (UF + linear arithmetic): exact equality, then "not robustly different"
+        if not approx and E._acheck(z3.Not(eq)) == "unsat":
+            self.results.append((label, "proved"))
+            return
+        if E._acheck(rob) == "unsat":
+            self.results.append((label, "proved_tol"))
+            return
+        # 2. cheap counterexample candidates from the linear abstraction, judged by concrete replay
+        self._candidate(label, rob, "values differ", use_abstract=True, final=False, max_models=3)
+        # 3. exact (nonlinear) solver
+        r = "skipped" if approx else E._check(z3.Not(eq))
+        if r == "unsat":
+            self.results.append((label, "proved"))
+            return
+        r2 = E._check(rob)
         if r2 == "unsat":
-            self.results.append((label, "proved_tol" if r == "sat" else "proved_tol"))
+            self.results.append((label, "proved_tol"))
             return
         if r2 == "unknown":
             self.results.append((label, "unknown"))
@@ -328,7 +378,7 @@ class H:
     def reach(self, label="reach"):
         """reachability witness: the path up to here must be feasible"""
         if self.sym:
-            r = self.E.feasible(quick=True)
+            r = self.E.reach_check()
             self.results.append((label, "witness" if r == "sat" else ("vacuous" if r == "unsat" else "witness_unknown")))
         else:
             self.results.append((label, "ok"))
@@ -395,6 +445,7 @@ def run_obligation(prop, hname, fn, cfg, seed=0, timeout_ms=20000, max_paths=200
             h = H("sym", cfg, eng=E, replayer=replayer)
             try:
                 del stx.CALLS[:]
+                stx.TERMS.clear()
                 stubs.uninstall_all()
                 stubs.install_rng()
                 with shim.patched(extra_bindings(h) if extra_bindings else None):
